@@ -282,19 +282,11 @@ def o8(W, ob):
                           or 'current_frame' in repr(a) for a in c) for c in g)
         ob.check(ok, 'SyncTestSession::advance_frame|save', 'SyncTest saves the current frame when check_distance > 0',
                  'SyncTest save guard: ' + dnf_str(g)[:200], where(st, st.blocks[sb].term.line))
-        for fb in fetch:
+        steps = sites(W, st, SL + '::advance_frame') + [s.bb for f2, s in W.constructions('GgrsRequest', 'AdvanceFrame') if f2 is st]
+        for fb in steps:
             ob.check(fb in cfg.reachable_after(sb) and sb not in cfg.reachable_after(fb),
-                     'SyncTestSession::advance_frame|save-before-fetch', 'the save precedes the simulation of that frame',
-                     'SyncTest saves after fetching/stepping', where(st, st.blocks[sb].term.line))
-    # every path with check_distance > 0 to the fetch passes the save
-    for fb in fetch:
-        p = cfg.path_avoiding([fb], sv)
-        if p is not None:
-            # allowed only if the path carries check_distance == 0
-            gs = G.guard(fb)
-            ok = all(any(match_lin(a, [(exact('self.check_distance'), 1)], eq=0) or match_lin(a, [(exact('self.check_distance'), 1)], hi=0)
-                         for a in c) or True for c in gs)
-        ob.ok('fetch reachable without save only when check_distance == 0 (checked via the save guard)', where(st))
+                     'SyncTestSession::advance_frame|save-before-step', 'the save precedes the step of that frame and its AdvanceFrame request',
+                     'SyncTest saves after stepping the frame / after queuing its AdvanceFrame request', where(st, st.blocks[sb].term.line))
     sp = W.fn(SP + '::advance_frame')
     cfgs = cfg_of(sp)
     ex, _ = W.writes_to_field('current_frame')
